@@ -82,7 +82,7 @@ fn json_extra() -> impl Strategy<Value = (String, String)> {
         prop_oneof![
             Just("true".to_string()),
             Just("null".to_string()),
-            any::<i64>().prop_map(|n| n.to_string()),
+            crate::util::num::<i64>().prop_map(|n| n.to_string()),
             text(ANY, 20).prop_map(|s| serde_json::to_string(&s).unwrap()),
             Just("{\"type\":\"FML\",\"modList\":[]}".to_string()),
             Just("[1,2,{\"a\":\"b\"}]".to_string()),
@@ -93,7 +93,7 @@ fn json_extra() -> impl Strategy<Value = (String, String)> {
 
 pub fn java_status() -> impl Strategy<Value = JavaStatus> {
     (
-        (text(ANY, 40), any::<i32>(), any::<u32>(), any::<u32>()),
+        (text(ANY, 40), crate::util::num::<i32>(), crate::util::num::<u32>(), crate::util::num::<u32>()),
         prop_oneof![
             2 => Just(Sample::Absent),
             1 => Just(Sample::Null),
@@ -119,7 +119,7 @@ pub fn java_status() -> impl Strategy<Value = JavaStatus> {
         ],
         (prop::option::of("data:image/png;base64,[A-Za-z0-9+/]{0,200}"), prop::option::of(any::<bool>()), prop::option::of(any::<bool>())),
         prop::collection::vec(json_extra(), 0..3),
-        (any::<u64>(), any::<bool>(), any::<bool>()),
+        (crate::util::num::<u64>(), any::<bool>(), any::<bool>()),
     )
         .prop_map(|((version_name, protocol, max, online), sample, description, (favicon, previews_chat, enforces_secure_chat), extras, (order, spaced, with_pong))| {
             let extras = crate::util::dedup_by_key(extras);
@@ -346,7 +346,7 @@ const BR_EXCL: &[char] = &[';'];
 pub fn bedrock_status() -> impl Strategy<Value = BedrockStatus> {
     (
         any::<[u8; 8]>(),
-        (prop::sample::select(vec!["MCPE", "MCEE"]), text(BR_EXCL, 40), "[0-9]{1,4}", text(BR_EXCL, 12), any::<u32>(), any::<u32>()),
+        (prop::sample::select(vec!["MCPE", "MCEE"]), text(BR_EXCL, 40), "[0-9]{1,4}", text(BR_EXCL, 12), crate::util::num::<u32>(), crate::util::num::<u32>()),
         // how many optional fields: 0 => 6 fields, 1 => id, 2 => +level, 3 => +mode, 4.. => + extras
         (0usize..7, "[0-9]{1,19}", text(BR_EXCL, 20), 0u8..5, prop::collection::vec("[0-9]{1,5}", 3), any::<bool>()),
     )
@@ -453,7 +453,21 @@ pub struct LegacyStatus {
 const LEG_EXCL: &[char] = &['§'];
 
 pub fn legacy_status() -> impl Strategy<Value = LegacyStatus> {
-    (any::<i32>(), text(ANY, 16), text(LEG_EXCL, 60), any::<u32>(), any::<u32>()).prop_map(|(protocol, version, motd, online, max)| {
+    // one status in thirty has a description that takes the kick string to the neighbourhood of 32768 or 65535 UTF-16 units
+    // (the length field is a u16 counting units, and it is doubled to get bytes)
+    let pad = prop_oneof![29 => Just(0usize), 1 => prop_oneof![32_700usize .. 32_800, 65_400usize .. 65_536, 32_768usize .. 65_536]];
+    (crate::util::num::<i32>(), text(ANY, 16), text(LEG_EXCL, 60), crate::util::num::<u32>(), crate::util::num::<u32>(), pad).prop_map(|(protocol, version, motd, online, max, pad)| {
+        let mut motd = motd;
+        if pad > 0 {
+            // `pad` is the total length of the longer (1.6) kick string in units
+            let overhead = format!("\u{a7}1\0{protocol}\0{version}\0\0{online}\0{max}").encode_utf16().count();
+            let room = pad.saturating_sub(overhead);
+            let mut units = motd.encode_utf16().count();
+            while units > room {
+                units -= motd.pop().map(|c| c.len_utf16()).unwrap_or(units);
+            }
+            motd.extend(std::iter::repeat('x').take(room - units));
+        }
         LegacyStatus {
             protocol,
             version,
